@@ -81,9 +81,11 @@ def part_T(ctx):
         if rep is not None and rep.get("model") != impl:
             ctx.mismatch({"part": "T", "suite": s}, impl, rep.get("model", str(rep)), "TestSuite bool/status")
     from fieldcompare._cli._test_suite import TestStatus
-    names = [m.name for m in TestStatus]
-    if names != TS_NAMES:
-        ctx.mismatch({"part": "T"}, names, TS_NAMES, "TestStatus members differ from the modelled enumeration")
+    # the SET of members is modelled; the order in which the enum declares them (and their values) is a local choice of
+    # the source that nothing in C15 talks about
+    names = sorted(m.name for m in TestStatus)
+    if names != sorted(TS_NAMES):
+        ctx.mismatch({"part": "T"}, names, sorted(TS_NAMES), "TestStatus members differ from the modelled enumeration")
     for m in TestStatus:
         if bool(m) != (m.name not in FALSY):
             ctx.violation({"part": "T", "status": m.name}, bool(m), m.name not in FALSY, what="TestStatus truthiness")
